@@ -8,11 +8,10 @@ Local Open Scope N_scope.
 
 (* dec_val (ClenModel): value of a string of decimal digits, fold_left (a*10 + (c-48)) *)
 
-(* the white space the two modes allow before / after the number *)
-Definition ows_before (relaxed : bool) (c : N) : bool :=
-  if relaxed then (c =? 32) || (c =? 9) || (c =? 11) || (c =? 12) || (c =? 13) else (c =? 32) || (c =? 9).
-Definition ows_after (relaxed : bool) (c : N) : bool :=
-  if relaxed then (c =? 32) || (c =? 9) || (c =? 11) || (c =? 12) || (c =? 13) else (c =? 32).
+(* optional white space before / after the number: RFC 9110 OWS = SP / HTAB, in both parser modes
+   (the mode argument is kept for the callers; it is not used) *)
+Definition ows_before (relaxed : bool) (c : N) : bool := (c =? 32) || (c =? 9).
+Definition ows_after (relaxed : bool) (c : N) : bool := (c =? 32) || (c =? 9).
 
 (* "item is OWS 1*DIGIT OWS and its number is v, which fits a signed 64-bit integer" *)
 Definition is_token (relaxed : bool) (item : bytes) (v : Z) : Prop :=
@@ -45,20 +44,15 @@ Proof.
 Qed.
 
 Definition tables_check (c : N) : bool :=
-  Bool.eqb (cs_DIGIT c) (c_isdigit c) &&
-  Bool.eqb (cs_relaxed_Whitespace c) (ows_before true c) &&
-  Bool.eqb (cs_strict_Whitespace c) (ows_before false c) &&
-  Bool.eqb (cs_relaxed_Delimiter c) (ows_after true c) &&
-  Bool.eqb (cs_strict_Delimiter c) (ows_after false c).
+  Bool.eqb (cs_DIGIT c) (c_isdigit c) && Bool.eqb (cs_WSP c) ((c =? 32) || (c =? 9)).
 
 Lemma tables_ok c : tables_check c = true.
 Proof.
   destruct (N.ltb_spec c 256) as [H|H].
   - exact (forallb_bytes tables_check ltac:(vm_compute; reflexivity) c H).
-  - unfold tables_check, cs_DIGIT, cs_relaxed_Whitespace, cs_strict_Whitespace, cs_relaxed_Delimiter,
-      cs_strict_Delimiter, mem_tbl.
+  - unfold tables_check, cs_DIGIT, cs_WSP, mem_tbl.
     rewrite !tbl_get_oob by (vm_compute lenN; exact H).
-    unfold c_isdigit, ows_before, ows_after.
+    unfold c_isdigit.
     repeat match goal with |- context [?a =? ?b] => let E := fresh in destruct (a =? b) eqn:E; [lia|] end.
     destruct (48 <=? c) eqn:E1, (c <=? 57) eqn:E2; try reflexivity; lia.
 Qed.
@@ -66,25 +60,22 @@ Qed.
 Lemma digit_tbl c : cs_DIGIT c = c_isdigit c.
 Proof.
   pose proof (tables_ok c) as H. unfold tables_check in H.
-  repeat (apply andb_prop in H; destruct H as [H ?]). now apply Bool.eqb_prop.
+  apply andb_prop in H as [H _]. now apply Bool.eqb_prop.
+Qed.
+Lemma wsp_tbl c : cs_WSP c = ((c =? 32) || (c =? 9)).
+Proof.
+  pose proof (tables_ok c) as H. unfold tables_check in H.
+  apply andb_prop in H as [_ H]. now apply Bool.eqb_prop.
 Qed.
 Lemma ws_tbl relaxed c : cl_ws relaxed c = ows_before relaxed c.
-Proof.
-  pose proof (tables_ok c) as H. unfold tables_check in H.
-  repeat (apply andb_prop in H; destruct H as [H ?]).
-  destruct relaxed; cbn [cl_ws]; now apply Bool.eqb_prop.
-Qed.
+Proof. exact (wsp_tbl c). Qed.
 Lemma delim_tbl relaxed c : cl_delim relaxed c = ows_after relaxed c.
-Proof.
-  pose proof (tables_ok c) as H. unfold tables_check in H.
-  repeat (apply andb_prop in H; destruct H as [H ?]).
-  destruct relaxed; cbn [cl_delim]; now apply Bool.eqb_prop.
-Qed.
+Proof. exact (wsp_tbl c). Qed.
 
 Lemma ws_not_digit relaxed c : ows_before relaxed c = true -> c_isdigit c = false.
-Proof. unfold ows_before, c_isdigit; destruct relaxed; lia. Qed.
+Proof. unfold ows_before, c_isdigit; lia. Qed.
 Lemma delim_not_digit relaxed c : ows_after relaxed c = true -> c_isdigit c = false.
-Proof. unfold ows_after, c_isdigit; destruct relaxed; lia. Qed.
+Proof. unfold ows_after, c_isdigit; lia. Qed.
 
 (* ================= list helpers ================= *)
 Lemma dropN_app_len {A} (a b : list A) : dropN (lenN a) (a ++ b) = b.
@@ -417,9 +408,9 @@ Proof.
 Qed.
 
 Lemma before_nc relaxed c : ows_before relaxed c = true -> negb (c =? 44) = true.
-Proof. unfold ows_before; destruct relaxed; lia. Qed.
+Proof. unfold ows_before; lia. Qed.
 Lemma after_nc relaxed c : ows_after relaxed c = true -> negb (c =? 44) = true.
-Proof. unfold ows_after; destruct relaxed; lia. Qed.
+Proof. unfold ows_after; lia. Qed.
 Lemma digit_nc c : c_isdigit c = true -> negb (c =? 44) = true.
 Proof. unfold c_isdigit; lia. Qed.
 
@@ -570,9 +561,9 @@ Proof.
 Qed.
 
 Lemma before_space relaxed c : ows_before relaxed c = true -> c_isspace c = true.
-Proof. unfold ows_before, c_isspace; destruct relaxed; lia. Qed.
+Proof. unfold ows_before, c_isspace; lia. Qed.
 Lemma before_nonul relaxed c : ows_before relaxed c = true -> negb (c =? 0) = true.
-Proof. unfold ows_before; destruct relaxed; lia. Qed.
+Proof. unfold ows_before; lia. Qed.
 
 Lemma token_parse_offset relaxed f v : is_token relaxed f v -> exists n, parse_offset f = Some (v, n).
 Proof.
